@@ -23,7 +23,7 @@ Definition lowest_level (flags : option Z) : Z :=
   end.
 
 Inductive okind := KOutput | KSection.
-Inductive meth := MWrite | MWriteLine | MWriteRaw | MWriteLineRaw | MOverwrite | MClear.
+Inductive meth := MWrite | MWriteLine | MWriteRaw | MWriteLineRaw | MOverwrite | MClear | MAddContent.
 (* which flags value a gate call on the way to stream.write receives *)
 Inductive gsrc := FCaller | FNone.
 
@@ -32,7 +32,10 @@ Inductive gsrc := FCaller | FNone.
      Output.write: _may_write(flags); write_line -> write(flags=flags); write_raw, write_line_raw: _may_write(flags)
      SectionOutput.write plain: Output.write(flags=flags); ANSI: _may_write(flags), then Output.write(string) [flags None]
      SectionOutput.overwrite: clear(); write_line(message) [flags None]
-     SectionOutput.clear ANSI: Output.write(control codes) [flags None]; plain: returns *)
+     SectionOutput.clear ANSI: Output.write(control codes) [flags None]; plain: returns
+     SectionOutput.add_content (public, no flags): _may_write(None) before the text is recorded; the text is not written
+       by the call but LATER, with the next write into an older section of a decorated output ("emits" = reaches the
+       stream then); on an undecorated output nothing is ever printed again *)
 Definition path (k : okind) (ansi : bool) (m : meth) : option (list gsrc) :=
   match k, m with
   | KOutput, (MWrite | MWriteLine | MWriteRaw | MWriteLineRaw) => Some [FCaller]
@@ -41,9 +44,10 @@ Definition path (k : okind) (ansi : bool) (m : meth) : option (list gsrc) :=
   | KSection, (MWrite | MWriteLine) => if ansi then Some [FCaller; FNone] else Some [FCaller]
   | KSection, MOverwrite => if ansi then Some [FNone; FNone] else Some [FNone]
   | KSection, MClear => if ansi then Some [FNone] else None
+  | KSection, MAddContent => if ansi then Some [FNone] else None
   end.
 Definition takes_flags (m : meth) : bool :=
-  match m with MOverwrite | MClear => false | _ => true end.
+  match m with MOverwrite | MClear | MAddContent => false | _ => true end.
 
 Definition emits (k : okind) (ansi : bool) (m : meth) (quiet : bool) (verbosity : Z) (flags : option Z) : bool :=
   match path k ansi m with
@@ -55,7 +59,7 @@ Definition emits (k : okind) (ansi : bool) (m : meth) (quiet : bool) (verbosity 
 Definition dec_kind (z : Z) : option okind := match z with 0%Z => Some KOutput | 1%Z => Some KSection | _ => None end.
 Definition dec_meth (z : Z) : option meth :=
   match z with 0%Z => Some MWrite | 1%Z => Some MWriteLine | 2%Z => Some MWriteRaw | 3%Z => Some MWriteLineRaw
-             | 4%Z => Some MOverwrite | 5%Z => Some MClear | _ => None end.
+             | 4%Z => Some MOverwrite | 5%Z => Some MClear | 6%Z => Some MAddContent | _ => None end.
 (* case: (kind ansi meth quiet verbosity flags?) -> (exists emits) *)
 Definition run_C10 (s : sexp) : sexp :=
   match s with
